@@ -17,7 +17,7 @@ use neurons::tensor::Tensor;
 pub fn meta(ctx: &Ctx) -> Meta {
     let t = ctx.tier.thorough();
     Meta {
-        rule: format!("(a) single layers through their public backward(): {} of the lattice L for convolution, deconvolution, max-pool (linear activation; ring x E5), dense n,m in 1..4 x E5 x bias, input and upstream gradient given flat or as CxHxW: weight/kernel, bias and INPUT gradient vs the dual-number derivative of sum_k g_k*out_k. (b) networks: every layer sequence of <= {} tokens over 5 input shapes with <= {} deviations x 7 objectives (cycled), through Network::backward and through one learn() step with SGD (parameter change = -lr*gradient); soft-max head of width 2,3,5 under cross-entropy on every sequence of <= {} tokens: derivative of CE(softmax(z)); networks also built a second way, through placeholder activations and set_activation. Data re-drawn until every ReLU pre-activation and pool runner-up is >= 0.1 from a kink/tie. Non-trivial = case whose reference gradient has >= 2 distinct non-zero entries",
+        rule: format!("(a) single layers through their public backward(): {} of the lattice L for convolution, deconvolution, max-pool (linear activation; ring x E5), dense n,m in 1..4 x E5 x bias, input and upstream gradient given flat or as CxHxW: weight/kernel, bias and INPUT gradient vs the dual-number derivative of sum_k g_k*out_k. (a') a LARGE-VALUE ring (kernel 5,7; stride 3,4; padding 3; dilation 3; 4,8 channels; 8,16 filters; planes 12x13, 28x32) with <= 1 (thorough 2) deviations, wide dense layers (33, 65x64, 100, 241) alone and stacked. (b) networks: every layer sequence of <= {} tokens over 5 input shapes with <= {} deviations x 7 objectives (cycled), through Network::backward and through one learn() step with SGD (parameter change = -lr*gradient); soft-max head of width 2,3,5 under cross-entropy on every sequence of <= {} tokens: derivative of CE(softmax(z)); networks also built a second way, through placeholder activations and set_activation. Data re-drawn until every ReLU pre-activation and pool runner-up is >= 0.1 from a kink/tie. Non-trivial = case whose reference gradient has >= 2 distinct non-zero entries",
             if t { "the FULL lattice" } else { "the ring of <= 2 deviations" }, if t { 3 } else { 2 }, if t { 2 } else { 1 }, if t { 2 } else { 1 }),
         bound: "kernel <= 3, stride <= 2(3), padding <= 2, dilation <= 2, planes <= 6x7, depth <= 3 (+ soft-max head)".into(),
         exhaustive: true,
@@ -459,6 +459,34 @@ pub fn cases(ctx: &Ctx) -> Vec<Kv> {
             }
         }
     }
+    // large-value ring: one (thorough: two) dimensions far outside the small lattice
+    for (kind, kn) in [(Kind::Conv, "conv"), (Kind::Deconv, "deconv"), (Kind::Pool, "pool")] {
+        let doms = xlattice_domains(kind);
+        for ix in deviations(&doms, if t { 2 } else { 1 }) {
+            if !xlattice_is_new(kind, &ix) || xlattice_point(kind, &ix, Act::Linear).is_none() {
+                continue;
+            }
+            // two large dimensions at once are only affordable when the plane stays small
+            if t && ix[10] >= 7 && ix[11] >= 7 {
+                continue;
+            }
+            let h = ix.iter().enumerate().map(|(i, v)| (i + 1) * v).sum::<usize>();
+            out.push(Kv::new().put("kind", "xlayer").put("layer", kn).put("ix", ixs(&ix)).put("act", if h % 2 == 0 { "linear" } else { "tanh" }).put("flat_in", h % 2).put("flat_grad", (h / 2) % 2));
+        }
+    }
+    // wide dense layers, alone and behind another layer (the input gradient of the second one matters)
+    for (n_in, n_out) in [(33usize, 2usize), (2, 33), (65, 64), (100, 7)] {
+        let net = Net::new(Dims::Flat(n_in), vec![L::Dense { n: n_out, act: Act::Tanh, bias: true, drop: None }]);
+        out.push(Kv::new().put("kind", "dense").put("net", net.name()));
+    }
+    for widths in [vec![65usize, 64, 3], vec![33, 100, 2], vec![17, 241, 5]] {
+        let mut layers = vec![L::Dense { n: widths[0], act: Act::Tanh, bias: true, drop: None }];
+        for wd in &widths[1..] {
+            layers.push(L::Dense { n: *wd, act: Act::Tanh, bias: true, drop: None });
+        }
+        let net = Net::new(Dims::Flat(3), layers);
+        out.push(Kv::new().put("kind", "net").put("net", net.name()).put("obj", "MSE"));
+    }
     for n_in in 1..=4usize {
         for n_out in 1..=4usize {
             for act in E5 {
@@ -512,6 +540,16 @@ pub fn check(seed: u64, case: &Kv, rep: &mut Report) {
             };
             let ix: Vec<usize> = case.list("ix").iter().map(|s| s.parse().unwrap()).collect();
             let (input, l) = lattice_point(kind, &ix, Act::parse(case.get("act"))).expect("invalid lattice point");
+            check_layer(&Net::new(input, vec![l]), case.bool("flat_in"), case.bool("flat_grad"), seed, case, rep);
+        }
+        "xlayer" => {
+            let kind = match case.get("layer") {
+                "conv" => Kind::Conv,
+                "deconv" => Kind::Deconv,
+                _ => Kind::Pool,
+            };
+            let ix: Vec<usize> = case.list("ix").iter().map(|s| s.parse().unwrap()).collect();
+            let (input, l) = xlattice_point(kind, &ix, Act::parse(case.get("act"))).expect("invalid large-value lattice point");
             check_layer(&Net::new(input, vec![l]), case.bool("flat_in"), case.bool("flat_grad"), seed, case, rep);
         }
         "dense" => check_layer(&Net::parse(case.get("net")), false, false, seed, case, rep),
